@@ -112,6 +112,25 @@ def step_coq(prop):
     return {"theorems": theorems, "closed": closed, "axioms": sorted(set(re.findall(r'^\s*([A-Za-z_][\w.\']*)\s*:', "\n".join(axioms), re.M)))}
 
 
+def step_coqchk(prop):
+    """thorough tier: independent re-check of the compiled closure of the property file"""
+    with Lock("coq"):
+        rc, out = sh(["timeout", "1500", "coqchk", "-silent", "-o", "-Q", "theories", "PG", "-Q", "gen", "PG.Gen",
+                      f"PG.Prop{prop}"], cwd=COQ, timeout=1600)
+    if rc != 0:
+        raise Broken(f"coqchk of Prop{prop}", out[-600:])
+    report = {}
+    for key, pat in (("axioms", r'\* Axioms:(.*?)(?=\n\* |\Z)'), ("type_in_type", r'type-in-type:(.*?)(?=\n\* |\Z)'),
+                     ("unsafe_fixpoints", r'unsafe \(co\)fixpoints:(.*?)(?=\n\* |\Z)'),
+                     ("assumed_positivity", r'positivity is assumed:(.*?)(?=\n\* |\Z)')):
+        m = re.search(pat, out, re.S)
+        report[key] = " ".join(m.group(1).split()) if m else "?"
+    bad = {k: v for k, v in report.items() if v != "<none>"}
+    if bad:
+        raise Broken(f"coqchk of Prop{prop} reports {bad}", out[-600:])
+    return report
+
+
 AUDIT_PAT = re.compile(
     r'\b(Admitted|admit|Axiom|Axioms|Parameter|Parameters|Conjecture|Conjectures|Admit Obligations)\b'
     r'|Unset\s+Guard\s+Checking|Unset\s+Positivity\s+Checking|Unset\s+Universe\s+Checking|bypass_check|type-in-type|impredicative-set')
@@ -426,10 +445,14 @@ def main():
     notes = []
     harness = None
     try:
+        harness = step_harness()
+    except Broken as e:
+        broken.append(e)
+    try:
         notes.append(step_translator())
     except Broken as e:
         broken.append(e)
-    if not broken:
+    if not any("translator" in b.what for b in broken):
         try:
             proof = step_coq(prop)
         except Broken as e:
@@ -439,12 +462,13 @@ def main():
             notes.append(f"audit: {nfiles} files clean")
         except Broken as e:
             broken.append(e)
+        if tier == "thorough" and not broken and not replay:
+            try:
+                notes.append("coqchk: " + json.dumps(step_coqchk(prop)))
+            except Broken as e:
+                broken.append(e)
     try:
         notes.append("driver " + step_driver())
-    except Broken as e:
-        broken.append(e)
-    try:
-        harness = step_harness()
     except Broken as e:
         broken.append(e)
 
